@@ -18,6 +18,16 @@ import (
 // generator
 
 func (m *machine) Next(t *rapid.T) fop {
+	// one history in seven is a "many pools" history: early on a burst creates enough cheap pools for the pool
+	// sequence to pass 10, so that farm-1 is a string prefix of farm-10.. while farm-1 is still operated on
+	if !m.planDrawn {
+		m.planDrawn = true
+		m.burstPlan = rapid.IntRange(0, 6).Draw(t, "burstPlan") == 0
+	}
+	if m.burstPlan && !m.bursted && len(m.pools) < maxPools && rapid.IntRange(0, 2).Draw(t, "burstNow") == 0 {
+		m.bursted = true
+		return m.genBurst(t)
+	}
 	if len(m.pools) == 0 && rapid.IntRange(0, 9).Draw(t, "first") < 9 {
 		return m.genCreate(t)
 	}
@@ -101,6 +111,21 @@ func (m *machine) pickPool(t *rapid.T, kind string) int {
 		if len(good) == 0 {
 			return -1
 		}
+		// in a many-pools history stay mostly on the early pools (farm-1 above all: its id is a prefix of farm-10..)
+		if len(m.pools) > maxPools {
+			var early []int
+			for _, i := range good {
+				if i < maxPools {
+					early = append(early, i)
+				}
+			}
+			switch x := rapid.IntRange(0, 9).Draw(t, "earlypool"); {
+			case x < 5 && len(early) > 0 && early[0] == 0:
+				return 0
+			case x < 8 && len(early) > 0:
+				return rapid.SampledFrom(early).Draw(t, "pool")
+			}
+		}
 		return rapid.SampledFrom(good).Draw(t, "pool")
 	}
 	return rapid.IntRange(0, len(m.pools)-1).Draw(t, "pool")
@@ -113,8 +138,12 @@ func (m *machine) genBlock(t *rapid.T) fop {
 		n    int64
 	}
 	var bs []bnd
+	late := -1 // of the pools of a burst only one (rotating) offers its boundaries
+	if len(m.pools) > maxPools {
+		late = maxPools + int(h)%(len(m.pools)-maxPools)
+	}
 	for i, p := range m.pools {
-		if p.refunded {
+		if p.refunded || (i >= maxPools && i != late) {
 			continue
 		}
 		if p.start > h {
@@ -165,8 +194,15 @@ func (m *machine) genCreate(t *rapid.T) fop {
 		nd = 3 // above the default maximum: must be rejected
 	}
 	perm := rapid.Permutation(rewardDenoms[:3]).Draw(t, "denoms")
-	if rapid.IntRange(0, 9).Draw(t, "stakeDenom") == 0 {
+	switch rapid.IntRange(0, 9).Draw(t, "stakeDenom") {
+	case 0:
 		perm[0] = "stake"
+	case 1: // denoms that are string prefixes of each other
+		perm[0], perm[1] = "eth", "ethx"
+	case 2:
+		perm[0], perm[1] = "usdt", "usd"
+	case 3:
+		perm[0] = rapid.SampledFrom([]string{"ethx", "usd"}).Draw(t, "prefixDenom")
 	}
 	life := rapid.IntRange(5, 40).Draw(t, "life")
 	for i := 0; i < nd; i++ {
@@ -191,6 +227,28 @@ func (m *machine) genCreate(t *rapid.T) fop {
 		o.Denoms = append(o.Denoms, perm[i])
 		o.Rates = append(o.Rates, rate.String())
 		o.Totals = append(o.Totals, total.String())
+	}
+	return o
+}
+
+// genBurst creates enough cheap pools in one step for the pool sequence to reach 10..13: one reward denom, small
+// rate and budget, start now or within two blocks, mixed editable flags and creators.
+func (m *machine) genBurst(t *rapid.T) fop {
+	n := 10 - len(m.pools) + rapid.IntRange(0, 3).Draw(t, "burstExtra")
+	o := fop{K: "burst"}
+	for i := 0; i < n; i++ {
+		rate := big.NewInt(int64(rapid.IntRange(1, 5).Draw(t, "brate")))
+		if m.avoidF4 {
+			rate.Mul(rate, lcm40)
+		}
+		life := rapid.IntRange(8, 40).Draw(t, "blife")
+		total := new(big.Int).Mul(rate, big.NewInt(int64(life)))
+		if rapid.Bool().Draw(t, "brem") {
+			total.Add(total, new(big.Int).Quo(rate, big.NewInt(2)))
+		}
+		o.Sub = append(o.Sub, fop{K: "create", Who: rapid.SampledFrom([]int{0, 0, 1}).Draw(t, "bcreator"), Lpt: rapid.IntRange(0, 1).Draw(t, "blpt"),
+			Edit: rapid.Bool().Draw(t, "bedit"), Start: int64(rapid.SampledFrom([]int{0, 0, 1, 2}).Draw(t, "bstart")),
+			Denoms: []string{rapid.SampledFrom(rewardDenoms).Draw(t, "bdenom")}, Rates: []string{rate.String()}, Totals: []string{total.String()}})
 	}
 	return o
 }
@@ -352,9 +410,9 @@ func (m *machine) genPoolOp(t *rapid.T, idx int, kind string) fop {
 // ---------------------------------------------------------------------------------------------
 
 const ruleCommon = "rapid state machine on the keeper-level driver (farm + coinswap + bank; irismod blockers): prelude = 2 coinswap pools, lpt-1/lpt-2 handed to 4 farmers; " +
-	"rules create (start now or 1-10 blocks ahead, 1-2 reward denoms (3 = must reject), rate and stake by shape with tiny values at high weight, lifetime 5-40 blocks with different exhaustion heights, editable or not) / " +
+	"rules burst (1 history in 7, early: 7-13 cheap one-denom pools in one step so that the pool sequence passes 10 and farm-1 is a string prefix of farm-10..; afterwards operations stay mostly on the early pools) / create (reward denoms include the prefix pairs eth/ethx and usd/usdt; start now or 1-10 blocks ahead, 1-2 reward denoms (3 = must reject), rate and stake by shape with tiny values at high weight, lifetime 5-40 blocks with different exhaustion heights, editable or not) / " +
 	"stake (incl. 0, whole balance, balance+1) / unstake (full, partial, stake+1, 0) / harvest / adjust (top-up and/or new rate per denom) / destroy / strangers on creator-only operations / " +
-	"block (1-8 blocks; with probability 1/4 stop exactly at a pool's start, end or end-1 height and aim the next operation at that pool); <=3 farm pools, amounts <= 2^100; "
+	"block (1-8 blocks; with probability 1/4 stop exactly at a pool's start, end or end-1 height and aim the next operation at that pool); <=3 farm pools (<=13 in a many-pools history), amounts <= 2^100; "
 
 const c05Rule = ruleCommon + "oracle after every step: recorded stakes = stakes made, their sum = recorded pool total, farm account = recorded totals + recorded remaining budgets, unstake of <= recorded stake succeeds and pays exactly amount + accrued reward; " +
 	"full-withdrawal epilogue on a branch at generated points, at the end of the history and again after every pool has expired. " +
